@@ -3,6 +3,7 @@
 //
 // usage: c19_mms enumerate <quick|thorough> <part> <nparts>        (STAT / SAMPLE / ROW lines)
 //        c19_mms replay   (stdin: "geom=.. prob=.. alpha=.. beta=.. kappa=.. delta=.. Rmax=..")
+#include <cstring>
 #include <cxxabi.h>
 #include <typeinfo>
 
@@ -204,9 +205,50 @@ static void runOne(int geom, int prob, int alpha, int beta, double Rmax, double 
         if (!(al > 0))
             gy = 1e300;
     }
-    printf("ROW geom=%d prob=%d alpha=%d beta=%d Rmax=%.17g kappa=%.17g delta=%.17g src=%s exact=%s bc=%s coef=%s geo=%s "
+    // purity: the input functions are functions - the value at a point does not depend on which points were evaluated before
+    // (a memo keyed on too little, a lazily filled table).  40 points forwards, backwards, and with a foreign point in between.
+    std::string impure = "-";
+    {
+        auto all = [&](double r, double t, std::vector<double>& v) {
+            const double sn = std::sin(t), cs = std::cos(t);
+            v.push_back(p.geo->Fx(r, t, sn, cs));
+            v.push_back(p.geo->Fy(r, t, sn, cs));
+            v.push_back(p.geo->dFx_dr(r, t, sn, cs));
+            v.push_back(p.geo->dFy_dr(r, t, sn, cs));
+            v.push_back(p.geo->dFx_dt(r, t, sn, cs));
+            v.push_back(p.geo->dFy_dt(r, t, sn, cs));
+            v.push_back(p.coef->alpha(r));
+            v.push_back(p.coef->beta(r));
+            v.push_back(p.src->rhs_f(r, t, sn, cs));
+            v.push_back(p.exact ? p.exact->exact_solution(r, t, sn, cs) : 0.0);
+            v.push_back(p.bc->u_D(Rmax, t, sn, cs));
+            v.push_back(p.bc->u_D_Interior(1e-2, t, sn, cs));
+        };
+        const char* names[12] = {"Fx", "Fy", "dFx_dr", "dFy_dr", "dFx_dt", "dFy_dt", "alpha", "beta", "rhs_f", "exact_solution", "u_D",
+                                 "u_D_Interior"};
+        std::vector<std::pair<double, double>> pts;
+        for (int i = 0; i < 40; i++)
+            pts.push_back({Rmax * (0.03 + 0.94 * ((i * 7) % 40) / 40.0), 0.05 + 6.1 * ((i * 11) % 40) / 40.0});
+        std::vector<std::vector<double>> fwd(pts.size()), bwd(pts.size()), mix(pts.size());
+        for (size_t i = 0; i < pts.size(); i++)
+            all(pts[i].first, pts[i].second, fwd[i]);
+        for (size_t i = pts.size(); i-- > 0;)
+            all(pts[i].first, pts[i].second, bwd[i]);
+        for (size_t i = 0; i < pts.size(); i++) {
+            std::vector<double> dummy;
+            all(pts[(i + 13) % pts.size()].second * 0.1 + 0.01, pts[(i + 5) % pts.size()].second, dummy);
+            all(pts[i].first, pts[i].second, mix[i]);
+        }
+        for (size_t i = 0; i < pts.size() && impure == "-"; i++)
+            for (int k = 0; k < 12; k++)
+                if (std::memcmp(&fwd[i][k], &bwd[i][k], 8) != 0 || std::memcmp(&fwd[i][k], &mix[i][k], 8) != 0) {
+                    impure = names[k];
+                    break;
+                }
+    }
+    printf("ROW impure=%s geom=%d prob=%d alpha=%d beta=%d Rmax=%.17g kappa=%.17g delta=%.17g src=%s exact=%s bc=%s coef=%s geo=%s "
            "points=%ld jac=%.6g jacAt=%s jacr=%.6g jacrAt=%s rhs=%.6g rhsAt=%s bnd=%.6g bndAt=%s gyro=%.6g isgyro=%d\n",
-           geom, prob, alpha, beta, Rmax, kappa, delta, src.c_str(), ex.c_str(), bc.c_str(), cf.c_str(), ge.c_str(), R.points,
+           impure.c_str(), geom, prob, alpha, beta, Rmax, kappa, delta, src.c_str(), ex.c_str(), bc.c_str(), cf.c_str(), ge.c_str(), R.points,
            R.jac, R.jacAt.empty() ? "-" : R.jacAt.c_str(), R.jacr, R.jacrAt.empty() ? "-" : R.jacrAt.c_str(), R.rhs, R.rhsAt.empty() ? "-" : R.rhsAt.c_str(), R.bnd,
            R.bndAt.empty() ? "-" : R.bndAt.c_str(), gy, (int)isGyro);
     (void)GN;
